@@ -5,7 +5,8 @@ Import ListNotations.
 
 (* Whatever happened before -- any number of runs, each after arbitrary edits (r_cur), processing any
    SCCs in any order on any number of processes (r_shape), each process killed at any position between
-   two store operations or not at all (r_crash), any subset of store writes failing (r_fail), data files
+   two store operations or not at all (r_crash), any subset of store writes and removes failing (r_fail),
+   any set of metas rewritten by validate_meta while loading (r_touch), data files
    getting any mtimes (r_stamp), either store (k), any sharding (r_shard) -- the next run on any files
    [cur] reports for every module exactly what a cold run reports (diagnostics, and the interface its
    dependants are checked against). *)
@@ -20,6 +21,6 @@ Definition crash_safe_for (P : protocol) : Prop :=
 Definition write_is_optional_for (P : protocol) : Prop :=
   forall (errs_of : inp -> errs) (iface_of : inp -> ifc) (k : skind) (h : list round),
     Forall (fun r => NoDup (shape_mods (r_shape r))) h ->
-    Forall (fun r => forall p, r_crash r p >= length (nth p (procs_of P (r_shape r)) [])) h ->
+    Forall (fun r => forall p, r_crash r p >= length (nth p (procs_of P (r_touch r) (r_shape r)) [])) h ->
     forall (cur : mid -> inp) (mods : list mid),
       warm errs_of iface_of (run_history iface_of P k h) cur mods = cold errs_of iface_of cur mods.
